@@ -123,6 +123,11 @@ type ExtModel struct {
 	RetAlias []int // parameters the (first) result may alias
 	Retains  []int // parameters retained beyond the call (escape)
 	Capped   bool  // the result has cap == len (append to it reallocates)
+	// Grows: like the append builtin, the call writes parameter 0 in place and
+	// returns it — unless parameter 0 is known to have cap == len, in which
+	// case growing reallocates and neither writes nor aliases it. Only for
+	// calls that always add at least one element when they write at all.
+	Grows bool
 }
 
 // TaintEngine computes summaries for a set of functions.
@@ -179,6 +184,17 @@ func NewTaintEngine(p *Prog) *TaintEngine {
 		"sort.Slice":                             {Writes: []int{0}},
 		"slices.Sort":                            {Writes: []int{0}},
 		"slices.Reverse":                         {Writes: []int{0}},
+		"slices.SortFunc":                        {Writes: []int{0}},
+		"slices.SortStableFunc":                  {Writes: []int{0}},
+		// in-place editors of package slices: they shift the elements of
+		// parameter 0 inside its backing array (Insert/Replace also into its
+		// spare capacity) and return a slice of it
+		"slices.Insert":      {Writes: []int{0}, RetAlias: []int{0}, Grows: true},
+		"slices.Delete":      {Writes: []int{0}, RetAlias: []int{0}},
+		"slices.DeleteFunc":  {Writes: []int{0}, RetAlias: []int{0}},
+		"slices.Replace":     {Writes: []int{0}, RetAlias: []int{0}},
+		"slices.Compact":     {Writes: []int{0}, RetAlias: []int{0}},
+		"slices.CompactFunc": {Writes: []int{0}, RetAlias: []int{0}},
 		// aliasers
 		"bytes.TrimRight":     {RetAlias: []int{0}},
 		"bytes.TrimLeft":      {RetAlias: []int{0}},
@@ -1009,6 +1025,9 @@ func (s *fnState) external(in ssa.Instruction, obj *types.Func, args []ssa.Value
 	if m, ok := s.t.Models[key]; ok && key != "" {
 		s.t.UsedModels[key]++
 		ch := false
+		if m.Grows && len(args) > 0 && s.capped[args[0]] {
+			return false
+		}
 		for _, i := range m.Writes {
 			if i < len(args) {
 				if ls := s.get(args[i]); len(ls) > 0 {
